@@ -121,3 +121,107 @@ def index_decrement(repo, run, rule_id, rel, quals):
                                                 src(n), name, worst, worst - k))
         if not sites:
             run.judged(rid, "%s: no index decrement" % q, nontrivial=False)
+
+
+# ------------------------------------------------------------------------------------------------
+VIEW_CALLS = {"reshape", "ravel", "asarray", "asanyarray", "atleast_1d", "atleast_2d", "squeeze", "transpose", "swapaxes", "view", "expand_dims", "moveaxis", "broadcast_to"}
+VIEW_ATTRS = {"T", "real", "flat"}
+INPLACE_METHODS = {"fill", "sort", "resize", "itemset", "put", "partition", "setfield", "byteswap", "append", "extend", "insert", "pop", "remove", "clear", "update",
+                   "setdefault", "popitem", "reverse", "add_", "mul_", "sub_", "div_", "copy_", "zero_", "fill_"}
+
+
+def may_alias_params(fn, params=None):
+    """names of ``fn`` that may denote (a view of) one of its parameters: the parameters themselves, and locals bound -- by any of their definitions, flow-
+    insensitively -- to a view-producing expression over such a name (plain copy of the name, reshape / ravel / asarray / atleast_nd / squeeze / transpose,
+    `.T`, a basic slice, tuple-unpacking of an aliasing sequence, loop variables over an aliasing array of arrays are NOT views of elements for 1-D data and
+    are not followed)."""
+    pos = fn.args.posonlyargs + fn.args.args + fn.args.kwonlyargs
+    alias = {a.arg: a.arg for a in pos if a.arg not in ("self", "cls")} if params is None else {p: p for p in params}
+
+    def root(e):
+        """parameter an expression may be a view of, or None"""
+        if isinstance(e, ast.Name):
+            return alias.get(e.id)
+        if isinstance(e, ast.Attribute) and e.attr in VIEW_ATTRS:
+            return root(e.value)
+        if isinstance(e, ast.Subscript):
+            sl = e.slice
+            parts = sl.elts if isinstance(sl, ast.Tuple) else [sl]
+            if all(isinstance(p_, ast.Slice) or (isinstance(p_, ast.Constant) and (p_.value is Ellipsis or p_.value is None)) for p_ in parts):
+                return root(e.value)
+            return None
+        if isinstance(e, ast.Call):
+            f = e.func
+            nm = f.attr if isinstance(f, ast.Attribute) else (f.id if isinstance(f, ast.Name) else None)
+            if nm in VIEW_CALLS:
+                if isinstance(f, ast.Attribute) and root(f.value) is not None:
+                    return root(f.value)            # a.reshape(...)
+                if e.args:
+                    return root(e.args[0])
+            return None
+        if isinstance(e, ast.IfExp):
+            return root(e.body) or root(e.orelse)
+        return None
+    changed = True
+    while changed:
+        changed = False
+        for st in walk_no_nested(fn):
+            if isinstance(st, ast.Assign):
+                for t in st.targets:
+                    if isinstance(t, ast.Name):
+                        r = root(st.value)
+                        if r is not None and alias.get(t.id) is None:
+                            alias[t.id] = r
+                            changed = True
+                    elif isinstance(t, (ast.Tuple, ast.List)) and isinstance(st.value, (ast.Tuple, ast.List)) and len(t.elts) == len(st.value.elts):
+                        for a, b in zip(t.elts, st.value.elts):
+                            if isinstance(a, ast.Name):
+                                r = root(b)
+                                if r is not None and alias.get(a.id) is None:
+                                    alias[a.id] = r
+                                    changed = True
+    return alias
+
+
+def args_unmodified(repo, run, rule_id, rel, quals, what, exempt=None, floor=None):
+    """who-may-write, for arguments: the listed functions store nothing INTO the arrays they are given -- no item / slice store, augmented assignment, `out=`
+    or in-place method on a parameter or on a local that may be a view of one.  The state handed down from OdeSystem is a row VIEW of the stored trajectory
+    (`self.__y[counter]`), and on the first step a view of the copy of the caller's y0: a callee that writes into it -- even temporarily, restoring the
+    value afterwards -- rewrites recorded history whenever the user's code raises in between, and corrupts what reset() restores."""
+    exempt = exempt or {}
+    rid = run.rule(rule_id, "who-may-write (arguments): %s store nothing into the arrays they are given (no item/slice store, augmented assignment, out= or "
+                            "in-place method on a parameter or on a reshape/ravel/asarray/slice view of one)" % what, floor=floor if floor is not None else len(quals))
+    for q in quals:
+        fn = repo.maybe(rel, q)
+        if fn is None:
+            raise AnalysisError("anchor missing: %s::%s" % (rel, q))
+        run.analysed_fn(rel, fn)
+        alias = may_alias_params(fn)
+        ex = exempt.get(q, {})
+        bad = []
+        for st in walk_no_nested(fn):
+            if isinstance(st, (ast.Assign, ast.AugAssign, ast.AnnAssign)):
+                tg = st.targets if isinstance(st, ast.Assign) else [st.target]
+                flat = []
+                for t in tg:
+                    flat.extend(t.elts if isinstance(t, (ast.Tuple, ast.List)) else [t])
+                for t in flat:
+                    if isinstance(t, ast.Subscript):
+                        b = t.value
+                        while isinstance(b, ast.Subscript):
+                            b = b.value
+                        if isinstance(b, ast.Name) and alias.get(b.id) is not None and alias[b.id] not in ex:
+                            bad.append((st, "`%s[...]` is stored into; `%s` may be (a view of) the argument `%s`" % (b.id, b.id, alias[b.id])))
+                    if isinstance(st, ast.AugAssign) and isinstance(t, ast.Name) and alias.get(t.id) is not None and alias[t.id] not in ex:
+                        bad.append((st, "`%s` is updated in place (`%s`); it may be (a view of) the argument `%s`" % (t.id, src(st)[:40], alias[t.id])))
+            if isinstance(st, ast.Call):
+                for k in st.keywords:
+                    if k.arg == "out" and isinstance(k.value, ast.Name) and alias.get(k.value.id) is not None and alias[k.value.id] not in ex:
+                        bad.append((st, "`out=%s` writes into (a view of) the argument `%s`" % (k.value.id, alias[k.value.id])))
+                if isinstance(st.func, ast.Attribute) and st.func.attr in INPLACE_METHODS and isinstance(st.func.value, ast.Name) and \
+                        alias.get(st.func.value.id) is not None and alias[st.func.value.id] not in ex:
+                    bad.append((st, "`%s.%s(...)` changes (a view of) the argument `%s` in place" % (st.func.value.id, st.func.attr, alias[st.func.value.id])))
+        run.judged(rid, "%s: %s" % (q, "arguments only read" if not bad else [b[:60] for _, b in bad]), ok=not bad)
+        for st, b in bad:
+            run.report(rule_id, rel, st, "%s: %s: the caller's array is modified (the state handed down by OdeSystem is a view of the stored trajectory; if user code raises "
+                                         "before the value is restored, the recorded state and what reset() restores are corrupted)" % (q, b))
